@@ -34,14 +34,16 @@ func (o Op) String() string {
 
 // Plan is everything that is decided before the first scheduling step.
 type Plan struct {
-	Prop     string         `json:"prop"`
-	Shape    string         `json:"shape"` // seq | small | large
-	Cap      int            `json:"cap"`
-	NKeys    int            `json:"nkeys"`
-	Callback bool           `json:"callback"`
-	Sys      bool           `json:"systematic,omitempty"` // a case of the systematic corpus (every short sequence)
-	Clients  [][]Op         `json:"clients"`
-	Cfg      simsync.Config `json:"cfg"`
+	Prop       string         `json:"prop"`
+	Shape      string         `json:"shape"` // seq | small | large
+	Cap        int            `json:"cap"`
+	NKeys      int            `json:"nkeys"`
+	Callback   bool           `json:"callback"`
+	Sys        bool           `json:"systematic,omitempty"`  // a case of the systematic corpus (every short sequence)
+	MixedKeys  bool           `json:"mixed_keys,omitempty"`  // keys of different dynamic types whose printed forms collide
+	CallbackAt int            `json:"callback_at,omitempty"` // single client: the callback is registered just before this operation index (0: before the first)
+	Clients    [][]Op         `json:"clients"`
+	Cfg        simsync.Config `json:"cfg"`
 }
 
 func (p *Plan) NOps() int {
@@ -104,7 +106,11 @@ func genMix(r *detsim.Rand, withDump bool) (mix, bool) {
 func GenC09(r *detsim.Rand, tier string) *Plan {
 	p := &Plan{Prop: "C09", Shape: "seq", Callback: !r.Chance(1, 10)}
 	p.Cfg = simsync.Config{Policy: simsync.PolicyUniform, StallTask: -1, Pool: simsync.PoolMode(r.Intn(3))}
-	switch r.Weighted([]int{70, 20, 10}) {
+	switch r.Weighted([]int{70, 20, 10, 1}) {
+	case 3:
+		// capacities in the range of the library's default (512): thresholds small caches never reach
+		p.Cap = []int{64, 300, 512, 600}[r.Intn(4)]
+		p.NKeys = p.Cap + 50 + r.Intn(p.Cap)
 	case 0:
 		p.Cap = r.Intn(5)
 		p.NKeys = 2 + r.Intn(4)
@@ -124,8 +130,24 @@ func GenC09(r *detsim.Rand, tier string) *Plan {
 	case 3:
 		n = 500 + r.Intn(1500)
 	}
+	if p.Cap >= 64 {
+		n = 2*p.Cap + r.Intn(2*p.Cap)
+	}
 	m, lbs := genMix(r, true)
 	p.Clients = [][]Op{genOps(r, 0, n, p.NKeys, m, lbs)}
+	p.MixedKeys = r.Chance(1, 4)
+	if p.Callback && n > 3 && r.Chance(1, 8) {
+		p.CallbackAt = 1 + r.Intn(n-1)
+	}
+	if r.Chance(1, 6) {
+		// some stores carry the nil value
+		ops := p.Clients[0]
+		for i := range ops {
+			if ops[i].K == OpStore && r.Chance(1, 4) {
+				ops[i].Val = NilVal
+			}
+		}
+	}
 	return p
 }
 
@@ -156,7 +178,7 @@ func genCfg(r *detsim.Rand, nClients, estSteps int, pyields bool) simsync.Config
 
 // GenC10 draws a concurrent run: "small" (linearizability) or "large" (invariants).
 func GenC10(r *detsim.Rand, tier string, forceShape string) *Plan {
-	p := &Plan{Prop: "C10", Callback: !r.Chance(1, 8)}
+	p := &Plan{Prop: "C10", Callback: !r.Chance(1, 8), MixedKeys: r.Chance(1, 5)}
 	shape := forceShape
 	if shape == "" {
 		shape = "small"
